@@ -619,4 +619,45 @@ theorem requirements_of_ok {o : Oracle} {logN : Int} {q p : List Nat} {rt : Nat}
       q_ok := fun m hm => ⟨f.q_prime m hm, by rw [← hnth]; exact f.q_ntt m hm, f.q_bits m hm⟩,
       p_ok := fun m hm => ⟨f.p_prime m hm, by rw [← hnth]; exact f.p_ntt m hm, f.p_bits m hm⟩ }
 
+/-! ### bgv.NewParameters -/
+
+/-- what acceptance by `bgv.NewParameters` establishes -/
+theorem bgvNew_ok {o : Oracle} {fuel : Nat} {a : Accepted} {t : Nat} {b : BgvAccepted}
+    (h : bgvNew o fuel a t = .ok b) :
+    t ≠ 0 ∧ t ∉ a.q ∧ t ≤ a.q.headD 0 ∧ o.isPrime t = true ∧ 16 ≤ cyclotomicOrder t ∧
+    b.nT = min a.n (cyclotomicOrder t / 2) ∧ MinRingDegree ≤ b.nT ∧ t &&& (2 * b.nT - 1) = 1 ∧
+    b.qMul.Nodup ∧ b.qMul ≠ [] ∧ ∀ m ∈ b.qMul, o.isPrime m = true ∧ m &&& (2 * a.n - 1) = 1 := by
+  unfold bgvNew at h
+  split at h
+  · cases h
+  · rename_i ht0
+    split at h
+    · cases h
+    · rename_i htq
+      split at h
+      · cases h
+      · rename_i htb
+        dsimp only at h
+        split at h
+        · cases h
+        · cases h
+        · cases h
+        · rename_i primes _
+          split at h
+          · cases h
+          · rename_i hqm
+            split at h
+            · cases h
+            · rename_i hord
+              split at h
+              · cases h
+              · rename_i hrt
+                injection h with h
+                subst h
+                have r1 := newRing_none hqm
+                have r2 := newRing_none hrt
+                have ht := r2.2.2.2 t (List.mem_singleton.mpr rfl)
+                refine ⟨ht0, by simpa using htq, by omega, ht.1, by omega, rfl, r2.1, ht.2,
+                  r1.2.2.1, r1.2.1, r1.2.2.2⟩
+
 end Lattigo.Params
